@@ -249,8 +249,15 @@ def planted_cases(rng, n):
 
 
 # ---- witnesses of the findings fixed in /repo ---------------------------------------------------------------
-# (finding id, source, expected end of the run: 'diag' = exit 1 with a diagnostic naming the file, 'ok' = exit 0 with output,
-#  language configurations it is about: None = all seven)
+# (finding id, source, expected end of the run, language configurations it is about: None = all seven)
+# expected end: 'ok' = exit 0 with output; 'diag' = exit 1 with a diagnostic naming the file;
+#               'gen' = exit 1 with the generation error "constants are not supported for <Lang>: cannot generate `<NAME>`" and no output
+#                       (it names the constant, not the file: open finding C07-generation-error-no-file);
+#               'config' = exit 1 with "a package name must be provided for Scala .." and no output (no source file offends).
+# Every witness runs in single-file (-o) AND multi-file (-d) mode.  Under `scala-nopkg` a witness that expects 'ok' must end
+# with 'config' (since the /repo fix of scala.rs:131 the missing package is reported, whatever the input).
+GEN_MESSAGE = {'kotlin': 'constants are not supported for Kotlin: cannot generate `%s`', 'swift': 'constants are not supported for Swift: cannot generate `%s`'}
+CONFIG_MESSAGE = 'a package name must be provided for Scala'
 FIXED_WITNESSES = [
     ('C07-parser.rs:287', '#[typeshare]\nstruct S();\n', 'diag', None),
     ('C07-parser.rs:287', '#[typeshare]\npub struct Wrapper<T>();\n#[typeshare]\nstruct Good { a: u8 }\n', 'diag', None),
@@ -274,6 +281,18 @@ FIXED_WITNESSES = [
     ('C07-go.rs:313', '#[typeshare]\n#[serde(tag = "t", content = "")]\nenum E { V(u8) }\n', 'ok', ['go']),
     ('C07-go.rs:313', '#[typeshare]\n#[serde(tag = "t", content = "_")]\nenum E { V(u8) }\n', 'ok', ['go']),
     ('C07-go.rs:313', '#[typeshare]\n#[serde(tag = "t", content = "été")]\nenum E { V(u8) }\n', 'ok', ['go']),
+    # fixes 13-16
+    ('C07-visitors.rs:401', 'use foo;\n#[typeshare]\nstruct S { a: u8 }\n', 'ok', None),
+    ('C07-visitors.rs:401', 'use ::foo;\nuse {a, b};\nuse *;\n#[typeshare]\nstruct S { a: u8 }\nmod m { use {{c}, d as e}; }\n', 'ok', None),
+    ('C07-visitors.rs:401', 'use {c, a::B};\nuse other_crate::{Thing, sub::*};\n#[typeshare]\nstruct S { a: B, b: Thing }\n', 'ok', None),
+    ('C07-go.rs:315', '#[typeshare]\n#[serde(tag = "t", content = "c")]\nenum Étoile { V(u8) }\n', 'ok', ['go']),
+    ('C07-go.rs:315', '#[typeshare]\n#[serde(tag = "t", content = "c")]\nenum İx { V(u8), W { a: u8 } }\n#[typeshare]\n#[serde(tag = "t", content = "c")]\nenum 中 { V(u8) }\n', 'ok', ['go']),
+    ('C07-kotlin.rs:183', '#[typeshare]\nconst X: u32 = 5;\n', 'gen', ['kotlin']),
+    ('C07-kotlin.rs:183', '#[typeshare]\nstruct S { a: u8 }\n#[typeshare]\npub const X: u32 = 5;\n', 'gen', ['kotlin']),
+    ('C07-swift.rs:268', '#[typeshare]\nconst X: u32 = 5;\n', 'gen', ['swift']),
+    ('C07-swift.rs:268', '#[typeshare]\nstruct S { a: u8 }\n#[typeshare]\npub const X: u32 = 5;\n', 'gen', ['swift']),
+    ('C07-scala.rs:131', '#[typeshare]\nstruct S { a: u8 }\n', 'config', ['scala-nopkg']),
+    ('C07-scala.rs:131', '#[typeshare]\npub const X: u32 = 5;\n', 'config', ['scala-nopkg']),
 ]
 
 
@@ -470,6 +489,8 @@ def multi_cases(rng, tier):
         add(f'{u} inside a module', OKS + f'mod m {{ {u} }}\n')
         add(f'{u} inside a function body', OKS + f'fn f() {{ {u} }}\n')
         add(f'{u} in a file with nothing to generate', f'// #[typeshare]\n{u}\n')
+        # an item that REFERS to what the use statement may import: reconcile_referenced_types keeps those imports
+        add(f'{u} before an item that refers to the imported names', u + '\n' + TS + 'struct Refs { a: Thing, b: B, c: Y, d: Foo, e: F, g: Read, h: Vec<Option<Thing>> }\n')
     add('path references', TS + 'struct S { a: other_crate::Thing, b: crate::m::X, c: super::Y, d: ::abs::Z, e: std::string::String, f: Vec<foo::Bar>, g: self::Q }\n')
     add('const in multi-file mode', TS + 'const K: u32 = 1;\n')
     add('plain struct', OKS)
